@@ -217,13 +217,18 @@ def get_model(
             right_asset.type)
 
         if not assoc:
-            logger.error(
-                'Failed to find ("%s", "%s", "%s", "%s")'
-                'association in language specification!',
+            # Every pair of opposite relationships between two nodes is
+            # returned by the query. When the two assets are linked by more
+            # than one association this also pairs the field of one
+            # association with the field of another one, no association
+            # has such a pair of fields.
+            logger.debug(
+                'No ("%s", "%s", "%s", "%s") association in language '
+                'specification, skipping this pair of relationships.',
                 left_asset.type, right_asset.type,
                 left_field, right_field
             )
-            return None
+            continue
 
         logger.debug('Found "%s" association.', assoc.name)
 
